@@ -257,6 +257,10 @@ class Engine:
             self.obligations.append(Obligation(self.root, 'bounds', what, False,
                                                func.loc(node) if func else '', 'access through an untracked pointer'))
             return False
+        if write:
+            # remembered element values of the region are no longer valid
+            for key in [k for k in st.cells if k[0] == ptr.region and isinstance(st.cells[k], Lin)]:
+                del st.cells[key]
         size = st.regions.get(ptr.region)
         if size is None:
             self.obligations.append(Obligation(self.root, 'bounds', what, False,
@@ -565,6 +569,8 @@ class Engine:
                 if self.cfg.get('track_reads') and (btype(t) in UBITS or btype(t) in SBITS):
                     v = self.fresh('elem', st, t)
                     st.ghost.append(('elem', lv[1], v))
+                    # reading the same element again (no write in between) yields the same value
+                    st.cells[(lv[1].region, lv[1].off.key())] = v
                     return v
             return self.fresh('elem', st, t) if btype(t) in UBITS or btype(t) in SBITS else UNKNOWN
         return UNKNOWN
